@@ -1,14 +1,15 @@
 #!/bin/sh
-# usage: tools/seeded_suite.sh <seed id> ...   -> .work/suite/<id>.txt : pinned test suite on a scratch copy with the patch
-# applied (confirms "still passes the existing tests": only the 12 baseline failures may fail)
+# usage: tools/seeded_suite.sh <seed id> ...   -> .work/suite/<id>.txt
+# Confirms "still passes the existing tests": the pinned suite, one pytest process per test file (8 at a time), on a
+# scratch copy with the patch applied.  Failures are compared with the 12 baseline failures by tools/suite_verdict.py.
 mkdir -p /verif/.work/suite
 for SID in "$@"; do
   W=/tmp/seedsuite_$SID
-  rm -rf $W; mkdir -p $W
+  rm -rf $W; mkdir -p $W/logs
   (cd /repo && git archive HEAD) | tar -x -C $W
-  (cd $W && patch -p1 -s < /verif/seeded/$SID/patch.diff) || { echo "PATCH FAILED" > /verif/.work/suite/$SID.txt; continue; }
-  (cd $W && PYTHONPATH=$W nice -n 10 /venv/bin/python -m pytest -q -p no:cacheprovider --timeout=900 --continue-on-collection-errors tests > $W/log.txt 2>&1)
-  grep -E "^(FAILED|ERROR|SUBFAILED)" $W/log.txt | sed 's/ - .*//' | sort > /verif/.work/suite/$SID.txt
-  tail -1 $W/log.txt >> /verif/.work/suite/$SID.txt
+  (cd $W && patch -p1 -s < /verif/seeded/$SID/patch.diff) || { echo "PATCH FAILED" > /verif/.work/suite/$SID.txt; rm -rf $W; continue; }
+  (cd $W && ls tests/test_*.py | xargs -P 8 -I{} sh -c 'PYTHONPATH='$W' nice -n 5 /venv/bin/python -m pytest -q -p no:cacheprovider --timeout=900 {} > logs/$(basename {}).log 2>&1')
+  cat $W/logs/*.log | grep -E "^(FAILED|ERROR|SUBFAILED)" | sed 's/ - .*//' | sort > /verif/.work/suite/$SID.txt
+  cat $W/logs/*.log | grep -E "^[0-9]+ (passed|failed)|^(=+ )?[0-9]+ (passed|failed)" | tr '\n' ';' >> /verif/.work/suite/$SID.txt
   rm -rf $W
 done
